@@ -10,6 +10,9 @@ import (
 	"hash"
 
 	k1 "github.com/decred/dcrd/dcrec/secp256k1/v4"
+	"github.com/libp2p/go-libp2p"
+	"github.com/libp2p/go-libp2p/core/crypto"
+	"github.com/libp2p/go-libp2p/core/host"
 	"github.com/libp2p/go-libp2p/core/peer"
 	"google.golang.org/protobuf/proto"
 	"google.golang.org/protobuf/types/known/anypb"
@@ -119,12 +122,20 @@ func vAny(tag byte) *anypb.Any {
 	if vrt.Symbolic() {
 		return &anypb.Any{TypeUrl: "type.googleapis.com/dkg.dkgpb.v1.BCastSigResponse", Value: []byte{tag}}
 	}
-	a, err := anypb.New(&pb.BCastSigResponse{Id: string([]byte{'v', tag})})
+	a, err := anypb.New(&pb.BCastSigResponse{Id: "v", Signature: []byte{tag}})
 	if err != nil {
 		panic(err)
 	}
 	return a
 }
+
+// vHost is the libp2p host as far as the constructor is concerned (engine only): it has an identity.
+type vHost struct {
+	host.Host
+	id peer.ID
+}
+
+func (h vHost) ID() peer.ID { return h.id }
 
 type vMember struct {
 	c         *Component
@@ -136,14 +147,17 @@ type vMember struct {
 
 func vNewMember(i int, session []byte, tagOf func(proto.Message) byte) *vMember {
 	m := &vMember{}
-	c := &Component{allowedMsgIDs: map[string]struct{}{}, secret: vPriv[i], peers: vPeerID[:]}
-	hf := newHashAny(session)
-	c.srv = &server{
-		msgIDFuncs: map[string]messageIDFuncs{},
-		signFunc:   c.newK1Signer(),
-		verifyFunc: c.newPeerK1Verifier(hf),
-		hashFunc:   hf,
-		dedup:      make(map[dedupKey][]byte),
+	// the component is built by the real constructor (p2p.RegisterHandler is a no-op under the engine; natively a
+	// listener-less libp2p host is used)
+	var c *Component
+	if vrt.Symbolic() {
+		c = New(vHost{id: vPeerID[i]}, vPeerID[:], vPriv[i], session)
+	} else {
+		h, err := libp2p.New(libp2p.NoListenAddrs, libp2p.Identity((*crypto.Secp256k1PrivateKey)(vPriv[i])))
+		if err != nil {
+			panic(err)
+		}
+		c = New(h, vPeerID[:], vPriv[i], session)
 	}
 	for _, id := range []string{"A", "B"} {
 		c.RegisterMessageIDFuncs(id,
@@ -180,8 +194,8 @@ func VerifC13Bcast() {
 		if a, ok := msg.(*anypb.Any); ok && len(a.Value) > 0 { // engine: the inner message is the payload wrapper itself
 			return a.Value[0]
 		}
-		if s, ok := msg.(*pb.BCastSigResponse); ok && len(s.Id) == 2 { // native
-			return s.Id[1]
+		if s, ok := msg.(*pb.BCastSigResponse); ok && len(s.Signature) == 1 { // native
+			return s.Signature[0]
 		}
 		return 0
 	}
